@@ -5043,6 +5043,10 @@ class Entity(object, metaclass=EntityMeta):
                         assert objects_to_save[save_pos] is None
                         objects_to_save[save_pos] = obj
                     obj._save_pos_ = save_pos
+                elif obj._status_ == 'cancelled':  # the object was created in this session, return it to the save queue
+                    assert save_pos is not None and objects_to_save[save_pos] is None
+                    objects_to_save[save_pos] = obj
+                    obj._save_pos_ = save_pos
                 obj._status_ = status
                 for cache_index, old_key in undo_list: cache_index[old_key] = obj
 
